@@ -98,7 +98,9 @@ type Machine struct {
 	E     *evalfilter.Eval
 	calls []Call
 	ctx   *resetCtx
-	steps *int64 // instructions dispatched in the current run (nil: not counted)
+	steps *int64         // instructions dispatched in the current run (nil: not counted)
+	fnGen map[string]int // how often a host function of that name has been registered: a call reaching an
+	// earlier registration is recorded under "<name>@replaced"
 }
 
 // resetCtx is a context the harness can cancel and re-arm between runs, so that one
@@ -213,9 +215,17 @@ func newMachine(src string, vars [][2]interface{}, fns []FnSpec, optimize bool, 
 
 // addFunction registers (or replaces) a host function of the given kind
 func (m *Machine) addFunction(f FnSpec) {
+	if m.fnGen == nil {
+		m.fnGen = map[string]int{}
+	}
+	m.fnGen[f.Name]++
+	gen := m.fnGen[f.Name]
 	{
 		m.E.AddFunction(f.Name, func(args []object.Object) object.Object {
 			c := Call{Name: f.Name}
+			if gen != m.fnGen[f.Name] {
+				c.Name = f.Name + "@replaced" // this registration was replaced by a later AddFunction: it must not be called any more
+			}
 			for _, a := range args {
 				c.Args = append(c.Args, describe(a))
 			}
